@@ -53,6 +53,30 @@ func (c *Ctx) contractFor(fn *ssa.Function) *Contract {
 
 func (c *Ctx) execCall(st *State, fr *Frame, instr ssa.Instruction, call *ssa.CallCommon, k0 func(st *State, results []T)) {
 	k := k0
+	if bcs := c.callClauses(fr, call, "beforecall"); len(bcs) > 0 {
+		env := map[string]T{}
+		for kk, vv := range fr.env {
+			env[kk] = vv
+		}
+		ai := 0
+		if call.IsInvoke() {
+			env["carg0"] = c.valueOf(st, fr, call.Value)
+			ai = 1
+		}
+		for i, a := range call.Args {
+			env[fmt.Sprintf("carg%d", i+ai)] = c.valueOf(st, fr, a)
+		}
+		se := &SpecEnv{c: c, st: st, vars: env, pkg: c.pkgOfFrame(fr), old: fr.entry, fr: fr}
+		for _, cl := range bcs {
+			for _, cj := range se.splitConjuncts(cl.E, 0) {
+				g := se.prove(cj)
+				if !c.tagSelected(cl.Tags) {
+					continue
+				}
+				c.oblige(st, fr, instr, "assert-before:"+cl.Callee, "at the call of "+cl.Callee+": "+cj.String(), g, cl, cl.Tags)
+			}
+		}
+	}
 	if acs := c.afterClauses(fr, call); len(acs) > 0 {
 		pre := st.snap()
 		k = func(st2 *State, results []T) {
@@ -891,14 +915,16 @@ func (c *Ctx) bulkCopy(st *State, dstArr, dstOff string, src T, n string, elemT 
 		var inRange []string
 		for _, lp := range byKey[key] {
 			inRange = append(inRange, inElemRange("a", dstArr, dstOff, "(+ "+dstOff+" "+n+")", lp.path))
+			// quantify over the destination index k so that the trigger (select M' (elem dst k)) contains
+			// no arithmetic (E-matching cannot solve k = off + i for i)
 			var srcCell string
 			if srcIsString {
-				srcCell = "(sat_ " + src.S + " i)"
+				srcCell = "(sat_ " + src.S + " (- k " + dstOff + "))"
 			} else {
-				srcCell = "(select " + old + " " + applyPath("(elem (sarr "+src.S+") (+ (soff "+src.S+") i))", lp.path) + ")"
+				srcCell = "(select " + old + " " + applyPath("(elem (sarr "+src.S+") (+ (soff "+src.S+") (- k "+dstOff+")))", lp.path) + ")"
 			}
-			dstCell := applyPath("(elem "+dstArr+" (+ "+dstOff+" i))", lp.path)
-			st.assume("(forall ((i Int)) (! (=> (and (<= 0 i) (< i " + n + ")) (= (select " + nw + " " + dstCell + ") " + srcCell + ")) :pattern ((select " + nw + " " + dstCell + "))))")
+			dstCell := applyPath("(elem "+dstArr+" k)", lp.path)
+			st.assume("(forall ((k Int)) (! (=> (and (<= " + dstOff + " k) (< k (+ " + dstOff + " " + n + "))) (= (select " + nw + " " + dstCell + ") " + srcCell + ")) :pattern ((select " + nw + " " + dstCell + "))))")
 		}
 		st.assume("(forall ((a Addr)) (! (=> (not " + or(inRange...) + ") (= (select " + nw + " a) (select " + old + " a))) :pattern ((select " + nw + " a))))")
 	}
@@ -1034,7 +1060,17 @@ func (c *Ctx) loopHeader(fr *Frame, li *loopInfo, b, pred *ssa.BasicBlock, st *S
 		st.active[key] = 1
 		return true
 	}
-	// back edge: invariant preserved
+	// back edge: invariant preserved. The phi registers are re-bound only for the evaluation of the
+	// invariant and restored afterwards: sibling paths forked after the header still read them.
+	savedRegs := make([]T, len(phis))
+	for i, phi := range phis {
+		savedRegs[i] = fr.regs[phi]
+	}
+	defer func() {
+		for i, phi := range phis {
+			fr.regs[phi] = savedRegs[i]
+		}
+	}()
 	assignPhis(vals)
 	se := &SpecEnv{c: c, st: st, vars: fr.env, pkg: c.pkgOfFrame(fr), old: fr.entry, fr: fr}
 	for _, cl := range invs {
@@ -1070,16 +1106,24 @@ func (c *Ctx) tagSelected(tags []string) bool {
 
 // afterClauses: "after <callee> [with <closure>] assume <expr>" clauses of the frame's contract that match this call.
 func (c *Ctx) afterClauses(fr *Frame, call *ssa.CallCommon) []*Clause {
+	return c.callClauses(fr, call, "aftercall")
+}
+
+func (c *Ctx) callClauses(fr *Frame, call *ssa.CallCommon, kind string) []*Clause {
 	ct := fr.contract
 	if ct == nil {
 		ct = c.contractFor(fr.fn)
+	}
+	if ct == nil && fr.fn.Parent() != nil {
+		// an inlined closure without its own contract: the enclosing function's clauses apply
+		ct = c.contractFor(fr.fn.Parent())
 	}
 	if ct == nil {
 		return nil
 	}
 	var out []*Clause
 	for _, cl := range ct.Clauses {
-		if cl.Kind != "aftercall" {
+		if cl.Kind != kind {
 			continue
 		}
 		name := ""
@@ -1087,6 +1131,16 @@ func (c *Ctx) afterClauses(fr *Frame, call *ssa.CallCommon) []*Clause {
 			name = call.Method.Name()
 		} else if sc := call.StaticCallee(); sc != nil {
 			name = funcPkgPath(sc) + "." + relFuncName(sc)
+		} else if p, ok := call.Value.(*ssa.Parameter); ok {
+			name = p.Name()
+		} else if ld, ok := call.Value.(*ssa.UnOp); ok {
+			if fa, ok := ld.X.(*ssa.FieldAddr); ok {
+				if pt, ok := fa.X.Type().Underlying().(*types.Pointer); ok {
+					if stt, ok := pt.Elem().Underlying().(*types.Struct); ok {
+						name = stt.Field(fa.Field).Name()
+					}
+				}
+			}
 		}
 		if !strings.HasSuffix(name, cl.Callee) {
 			continue
